@@ -1,3 +1,130 @@
 // Included into daemon/src/rtc.rs as `mod verif_harness` (guard: cfg osrg_rustybgp_verif).
+//
+// Extra check X-rtc (beyond the listed properties): every transition of spec/Rtc/Rtc.tla replayed on the real RtcState,
+// and the RT-filter table on the real RtcFilter::from_paths / allows.
+//   VERIF_IN: "new" | "established f,f" | "eor" | "timer" | "dropped" | "helper" | "filter <paths> <rts>"
+//             (paths: comma separated <s|f>:<wild|aswild|rt1|rt2>, rts: comma separated rt1|rt2, "-" = none)
+//   VERIF_OUT: one JSON object per line of input.
 #[allow(unused_imports)]
 use super::*;
+use std::io::{BufRead, Write as _};
+use std::sync::Arc;
+
+fn fam(s: &str) -> Family {
+    match s {
+        "rtc" => Family::RTC,
+        "ipv4" => Family::IPV4,
+        "ipv4-vpn" => Family::IPV4_VPN,
+        "ipv6-vpn" => Family::IPV6_VPN,
+        "l2vpn-evpn" => Family::L2VPN_EVPN,
+        x => panic!("harness: family {x}"),
+    }
+}
+
+fn fam_name(f: Family) -> &'static str {
+    match f {
+        Family::RTC => "rtc",
+        Family::IPV4 => "ipv4",
+        Family::IPV4_VPN => "ipv4-vpn",
+        Family::IPV6_VPN => "ipv6-vpn",
+        Family::L2VPN_EVPN => "l2vpn-evpn",
+        _ => "?",
+    }
+}
+
+fn rt(s: &str) -> [u8; 8] {
+    match s {
+        "rt1" => [0x00, 0x02, 0xfd, 0xe9, 0, 0, 0, 1],
+        _ => [0x00, 0x02, 0xfd, 0xe9, 0, 0, 0, 2],
+    }
+}
+
+fn names(v: &[Family]) -> String {
+    let mut n: Vec<&str> = v.iter().map(|f| fam_name(*f)).collect();
+    n.sort();
+    n.iter().map(|x| format!("\"{x}\"")).collect::<Vec<_>>().join(",")
+}
+
+#[test]
+fn rtc_replay() {
+    let inp = std::env::var("VERIF_IN").expect("VERIF_IN");
+    let outp = std::env::var("VERIF_OUT").expect("VERIF_OUT");
+    let mut out = std::io::BufWriter::new(std::fs::File::create(outp).unwrap());
+    let mut m = RtcState::new();
+    for line in std::io::BufReader::new(std::fs::File::open(inp).unwrap()).lines() {
+        let line = line.unwrap();
+        let t: Vec<&str> = line.split_whitespace().collect();
+        if t.is_empty() {
+            continue;
+        }
+        if t[0] == "new" {
+            m = RtcState::new();
+            writeln!(out, "{{\"new\":true}}").unwrap();
+            continue;
+        }
+        if t[0] == "filter" {
+            let mut paths: Vec<SoftResetPath> = Vec::new();
+            for p in t[1].split(',').filter(|x| *x != "-" && !x.is_empty()) {
+                let (st, m) = p.split_once(':').unwrap();
+                let match_type = match m {
+                    "wild" => MatchType::Wildcard,
+                    "aswild" => MatchType::AsWildcard { origin_as: 65001 },
+                    x => MatchType::ExactMatch { origin_as: 65001, route_target: rt(x) },
+                };
+                let src = Arc::new(rustybgp_table::Source::new(
+                    "192.0.2.1".parse().unwrap(),
+                    "192.0.2.254".parse().unwrap(),
+                    65001,
+                    65000,
+                    "192.0.2.1".parse().unwrap(),
+                    rustybgp_table::PeerRole::Ebgp,
+                ));
+                if st == "s" {
+                    src.mark_stale();
+                }
+                paths.push((Family::RTC, Nlri::Rtc(rustybgp_packet::rtc::RtcNlri { match_type }), 0, None, src, Arc::new(vec![]), 0));
+            }
+            let mut data = Vec::new();
+            for r in t[2].split(',').filter(|x| *x != "-" && !x.is_empty()) {
+                data.extend_from_slice(&rt(r));
+            }
+            let mut attrs = vec![Attribute::new_with_value(Attribute::ORIGIN, 0).unwrap()];
+            if !data.is_empty() {
+                attrs.push(Attribute::new_with_bin(Attribute::EXTENDED_COMMUNITY, data).unwrap());
+            }
+            let f = RtcFilter::from_paths(&paths);
+            writeln!(out, "{{\"allows\":{}}}", f.allows(&attrs)).unwrap();
+            continue;
+        }
+        let input = match t[0] {
+            "established" => RtcInput::SessionEstablished {
+                negotiated_families: t.get(1).map(|s| s.split(',').filter(|x| !x.is_empty() && *x != "-").map(fam).collect()).unwrap_or_default(),
+            },
+            "eor" => RtcInput::EorReceived,
+            "timer" => RtcInput::TimerExpired,
+            "dropped" => RtcInput::SessionDropped,
+            "helper" => RtcInput::GrHelperStarted,
+            x => panic!("harness: op {x}"),
+        };
+        let outs = m.process(input);
+        let mut tags = Vec::new();
+        let mut arg = String::new();
+        for o in &outs {
+            match o {
+                RtcOutput::StartTimer(d) => tags.push(if *d == EOR_TIMER { "\"StartTimer\"".to_string() } else { "\"StartTimer?\"".to_string() }),
+                RtcOutput::StopTimer => tags.push("\"StopTimer\"".into()),
+                RtcOutput::ExportFamilies(f) => {
+                    tags.push("\"Export\"".into());
+                    arg = names(f);
+                }
+            }
+        }
+        let (st, susp) = match &m.state {
+            Inner::Inactive => ("Inactive", String::new()),
+            Inner::AwaitingEor { suspended } => ("AwaitingEor", names(suspended)),
+            Inner::Active => ("Active", String::new()),
+        };
+        let agree = (m.is_awaiting_eor() == (st == "AwaitingEor")) && (m.is_active() == (st == "Active"));
+        writeln!(out, "{{\"st\":\"{}\",\"suspended\":[{}],\"out\":[{}],\"arg\":[{}],\"queries_agree\":{}}}", st, susp, tags.join(","), arg, agree).unwrap();
+    }
+}
